@@ -247,6 +247,12 @@ impl CommitPipeline {
 		}
 	}
 
+	/// The highest sequence number handed out so far (visible or still being
+	/// applied). Every live transaction's start sequence is at or below it.
+	pub(crate) fn last_allocated_seq_num(&self) -> u64 {
+		self.log_seq_num.load(Ordering::Acquire).saturating_sub(1)
+	}
+
 	/// Block new commits from entering the critical section until the returned
 	/// guard is dropped. Used by `Tree::restore_from_checkpoint` to serialize
 	/// the multi-step restore (manifest reload, memtable wipe, WAL replay,
